@@ -144,7 +144,150 @@ class SplitTupleAssign(ast.NodeTransformer):
     generic_visit = DropElseAfterJump.generic_visit
 
 
-MODES = {"invert-if": InvertIf, "ifexp-swap": IfExpSwap, "demorgan": DeMorgan, "rename-locals": RenameLocals,
+class AliasFields(ast.NodeTransformer):
+    """``self.f`` read twice or more in a method -> ``f_al = self.f`` at the top of the method, the reads use the local
+    (only fields that ``__init__`` binds unconditionally, that no other method re-binds, and that the method itself does
+    not store, delete or augment)"""
+
+    def visit_ClassDef(self, cls: ast.ClassDef):
+        self.generic_visit(cls)
+        init = next((m for m in cls.body if isinstance(m, ast.FunctionDef) and m.name == "__init__"), None)
+        if init is None or not init.args.args:
+            return cls
+        me0 = init.args.args[0].arg
+        stable = set()
+        for st in init.body:  # top-level statements only: bound unconditionally
+            tgts = st.targets if isinstance(st, ast.Assign) else [st.target] if isinstance(st, ast.AnnAssign) and st.value is not None else []
+            for t in tgts:
+                if isinstance(t, ast.Attribute) and isinstance(t.value, ast.Name) and t.value.id == me0:
+                    stable.add(t.attr)
+        for m in cls.body:
+            if isinstance(m, (ast.FunctionDef, ast.AsyncFunctionDef)) and m.name != "__init__":
+                for x in ast.walk(m):
+                    if isinstance(x, ast.Attribute) and isinstance(x.ctx, (ast.Store, ast.Del)):
+                        stable.discard(x.attr)
+                    if isinstance(x, ast.AugAssign) and isinstance(x.target, ast.Attribute):
+                        stable.discard(x.target.attr)
+        for m in cls.body:
+            if not isinstance(m, (ast.FunctionDef, ast.AsyncFunctionDef)) or m.name == "__init__" or not m.args.args:
+                continue
+            if any(isinstance(d, ast.Name) and d.id in ("staticmethod", "classmethod", "property") for d in m.decorator_list):
+                continue
+            me = m.args.args[0].arg
+            nested = [x for x in ast.walk(m) if x is not m and isinstance(x, (ast.FunctionDef, ast.AsyncFunctionDef, ast.Lambda))]
+            inner = {id(y) for n_ in nested for y in ast.walk(n_)}
+            loads = {}
+            for x in ast.walk(m):
+                if isinstance(x, ast.Attribute) and isinstance(x.ctx, ast.Load) and isinstance(x.value, ast.Name) and x.value.id == me \
+                        and x.attr in stable and id(x) not in inner:
+                    loads.setdefault(x.attr, []).append(x)
+            names = {x.id for x in ast.walk(m) if isinstance(x, ast.Name)} | {a.arg for a in ast.walk(m) if isinstance(a, ast.arg)}
+            todo = {a: ls for a, ls in loads.items() if len(ls) >= 2 and (a.strip("_") + "_al") not in names}
+            if not todo:
+                continue
+
+            class Sub(ast.NodeTransformer):
+                def visit_Attribute(self, n):
+                    self.generic_visit(n)
+                    if isinstance(n.ctx, ast.Load) and isinstance(n.value, ast.Name) and n.value.id == me and n.attr in todo \
+                            and id(n) not in inner:
+                        return ast.copy_location(ast.Name(id=n.attr.strip("_") + "_al", ctx=ast.Load()), n)
+                    return n
+
+            body = [Sub().visit(st) for st in m.body]
+            k = 1 if body and isinstance(body[0], ast.Expr) and isinstance(body[0].value, ast.Constant) and isinstance(body[0].value.value, str) else 0
+            pre = [ast.copy_location(ast.Assign(targets=[ast.Name(id=a.strip("_") + "_al", ctx=ast.Store())],
+                                                value=ast.Attribute(value=ast.Name(id=me, ctx=ast.Load()), attr=a, ctx=ast.Load())), m.body[0])
+                   for a in sorted(todo)]
+            m.body = body[:k] + pre + body[k:]
+        return cls
+
+
+class IfExpToIf(ast.NodeTransformer):
+    """``x = a if c else b`` -> ``if c: x = a / else: x = b``; ``return a if c else b`` likewise"""
+
+    def _block(self, body):
+        out = []
+        for st in body:
+            st = self.visit(st)
+            val = getattr(st, "value", None)
+            if isinstance(st, ast.Assign) and isinstance(val, ast.IfExp) and len(st.targets) == 1 and isinstance(st.targets[0], ast.Name):
+                mk = lambda v: ast.copy_location(ast.Assign(targets=[ast.Name(id=st.targets[0].id, ctx=ast.Store())], value=v), st)  # noqa: E731
+                out.append(ast.copy_location(ast.If(test=val.test, body=[mk(val.body)], orelse=[mk(val.orelse)]), st))
+            elif isinstance(st, ast.Return) and isinstance(val, ast.IfExp):
+                mk = lambda v: ast.copy_location(ast.Return(value=v), st)  # noqa: E731
+                out.append(ast.copy_location(ast.If(test=val.test, body=[mk(val.body)], orelse=[mk(val.orelse)]), st))
+            else:
+                out.append(st)
+        return out
+
+    generic_visit = DropElseAfterJump.generic_visit
+
+
+class WalrusUnfold(ast.NodeTransformer):
+    """``if (x := e) <op> ...:`` -> ``x = e`` ; ``if x <op> ...:`` (first operand of a statement-level ``if`` test only)"""
+
+    def _block(self, body):
+        out = []
+        for st in body:
+            st = self.visit(st)
+            if isinstance(st, ast.If):
+                t = st.test
+                first = t.left if isinstance(t, ast.Compare) else t.operand if isinstance(t, ast.UnaryOp) else t
+                if isinstance(first, ast.NamedExpr) and isinstance(first.target, ast.Name):
+                    out.append(ast.copy_location(ast.Assign(targets=[ast.Name(id=first.target.id, ctx=ast.Store())], value=first.value), st))
+                    repl = ast.copy_location(ast.Name(id=first.target.id, ctx=ast.Load()), first)
+                    if isinstance(t, ast.Compare):
+                        t.left = repl
+                    elif isinstance(t, ast.UnaryOp):
+                        t.operand = repl
+                    else:
+                        st.test = repl
+            out.append(st)
+        return out
+
+    generic_visit = DropElseAfterJump.generic_visit
+
+
+class ModuleImport(ast.NodeTransformer):
+    """``from ._core import a, b as c`` -> ``from . import _core`` and ``_core.a`` / ``_core.b`` at every use"""
+
+    def visit_Module(self, mod: ast.Module):
+        mapping = {}
+        stored = {x.id for x in ast.walk(mod) if isinstance(x, ast.Name) and isinstance(x.ctx, (ast.Store, ast.Del))}
+        stored |= {a.arg for a in ast.walk(mod) if isinstance(a, ast.arg)}
+        new_body = []
+        for st in mod.body:
+            if isinstance(st, ast.ImportFrom) and st.level == 1 and st.module == "_core":
+                keep = []
+                for al in st.names:
+                    local = al.asname or al.name
+                    if local in stored or al.name == "*":
+                        keep.append(al)
+                    else:
+                        mapping[local] = al.name
+                if mapping:
+                    new_body.append(ast.copy_location(ast.ImportFrom(module=None, names=[ast.alias(name="_core")], level=1), st))
+                if keep:
+                    st.names = keep
+                    new_body.append(st)
+            else:
+                new_body.append(st)
+        if not mapping:
+            return mod
+        mod.body = new_body
+
+        class Sub(ast.NodeTransformer):
+            def visit_Name(self, n):
+                if isinstance(n.ctx, ast.Load) and n.id in mapping:
+                    return ast.copy_location(ast.Attribute(value=ast.Name(id="_core", ctx=ast.Load()), attr=mapping[n.id], ctx=ast.Load()), n)
+                return n
+
+        return Sub().visit(mod)
+
+
+MODES = {"alias-fields": AliasFields, "ifexp-to-if": IfExpToIf, "walrus-unfold": WalrusUnfold, "module-import": ModuleImport,
+         "invert-if": InvertIf, "ifexp-swap": IfExpSwap, "demorgan": DeMorgan, "rename-locals": RenameLocals,
          "drop-else": DropElseAfterJump, "split-tuple-assign": SplitTupleAssign}
 
 
@@ -204,7 +347,8 @@ def transform(src: str, dst: str, mode: str) -> int:
     return n
 
 
-ALL_MODES = ["rename-private", "rename-locals", "invert-if", "ifexp-swap", "demorgan", "drop-else", "split-tuple-assign"]
+ALL_MODES = ["rename-private", "rename-locals", "invert-if", "ifexp-swap", "demorgan", "drop-else", "split-tuple-assign",
+             "alias-fields", "ifexp-to-if", "walrus-unfold", "module-import"]
 
 
 def main():
